@@ -125,6 +125,26 @@ def bounded_roundtrip(tier, seed):
             if got != want or cnt != len(want):
                 return n, 'variant holding the Python value %r (content type %r) encoded as %s, the specification gives %s' % (
                     pyv, vsig, got.hex() if isinstance(got, bytes) else got, want.hex()), {'value': repr(pyv), 'content_signature': vsig, 'little_endian': le}
+    # the element width of an array comes from its signature, not from the Python container holding the values: a bytearray
+    # given for an array of wider integers is a sequence of small integers like any other; BOOLEAN is 0 or 1
+    # whatever truthy value was given
+    direct = [('an', [bytearray(b'\x01\x02\xfe')], [[1, 2, 254]]), ('aq', [bytearray(b'\x00\xff')], [[0, 255]]), ('ai', [bytearray(b'\x07')], [[7]]),
+              ('au', [bytearray(b'\x01\x02')], [[1, 2]]), ('ax', [bytearray(b'\x01\x02\x03')], [[1, 2, 3]]), ('at', [bytearray(b'')], [[]]),
+              ('(yan)', [(5, bytearray(b'\x09\x08'))], [[5, [9, 8]]]), ('a{sai}', [{'k': bytearray(b'\x01')}], [{'k': [1]}]), ('ay', [bytearray(b'ab')], [[97, 98]]),
+              ('b', [2], [True]), ('b', [255], [True]), ('ab', [[2, 0, -1]], [[True, False, True]]), ('(bb)', [(3, 0)], [[True, False]]), ('a{sb}', [{'k': 7}], [{'k': True}])]
+    for sig, pyvals, ref in direct:
+        for off in (0, 1, 4, 6):
+            for le in (True, False):
+                n += 1
+                want = W.encode(sig, ref, off, le)
+                try:
+                    cnt, chunks = _m.marshal(sig, pyvals, off, le)
+                    got = b''.join(chunks)
+                except Exception as e:
+                    got, cnt = '%s: %s' % (type(e).__name__, e), -1
+                if got != want or cnt != len(want):
+                    return n, 'marshal(%r, %r, off=%d, le=%s) = %s, the specification gives %s for the values %r' % (
+                        sig, pyvals, off, le, got.hex() if isinstance(got, bytes) else got, want.hex(), ref), {'signature': sig, 'values': repr(pyvals), 'offset': off, 'little_endian': le}
     for ct in take:
         for _ in range(2):
             vals = [W.gen_value(ct, rnd)]
@@ -192,6 +212,8 @@ def input_forms(ct, v, rnd):
         et = ct[1:]
         if et == 'y' and rnd.random() < 0.5:
             return bytearray(v)
+        if et in ('n', 'q', 'i', 'u', 'x', 't') and v and all(isinstance(x, int) and 0 <= x <= 255 for x in v) and rnd.random() < 0.5:
+            return bytearray(v)                   # small integers held in a byte buffer: still an array of the declared width
         if et[0] == '{':
             return {k: input_forms(et[2:-1], x, rnd) for k, x in v.items()}
         return [input_forms(et, x, rnd) for x in v]
